@@ -506,7 +506,7 @@ def check(pid, tier, only=None, keep=False, verbose=False):
     mod = importlib.import_module("queries." + pid)
     queries = [q for q in mod.queries() if tier == "thorough" or q.tier == "quick"]
     if only:
-        queries = [q for q in queries if only in q.name]
+        queries = [q for q in queries if only in q.name or (only.startswith("re:") and re.search(only[3:], q.name))]
     known, fixed = load_known()
     known_here = known.get(pid, [])
     global CACHE_DIR
